@@ -40,5 +40,14 @@ def decCoinsSub (a b : DecCoins) : Except Err DecCoins := Alliance.decCoinsSub a
 abbrev timeAfter (a b : Time) : Bool := decide (a > b)
 abbrev timeEq (a b : Time) : Bool := decide (a = b)
 
+/-- `rh.Alliance == alliance` on an element of a reward-history list -/
+abbrev allianceIs (r : RewardHistory) (a : Denom) : Bool := r.alliance == some a
+/-- `rh.Alliance == ""`: the legacy entries without an alliance -/
+abbrev allianceNone (r : RewardHistory) : Bool := r.alliance == none
+/-- the zero value of a named slice result -/
+abbrev nilHists : List RewardHistory := []
+/-- `append(ris, rh)` -/
+abbrev appendHist (l : List RewardHistory) (r : RewardHistory) : List RewardHistory := l ++ [r]
+
 end GoSem
 end Alliance
